@@ -241,6 +241,10 @@ pub fn mc_cb_op(sys: &mut McSystem, loc: &HashMap<String, String>, ws: &[String]
     }
 }
 
+thread_local! {
+    pub static PREDS: RefCell<bool> = RefCell::new(false);
+}
+
 pub struct Capped;
 
 pub fn cap() -> usize {
@@ -298,7 +302,11 @@ pub fn make_config(
                 // scenario too large for the correspondence run: abort it (reported as `capped`)
                 std::panic::panic_any(Capped);
             }
-            rec.borrow_mut().push(show_state(s));
+            if PREDS.with(|p| *p.borrow()) {
+                rec.borrow_mut().push(format!("{} {}", show_state(s), crate::preds::battery(s)));
+            } else {
+                rec.borrow_mut().push(show_state(s));
+            }
             holds(&coll, &l4, s)
         }))
         .execution_mode(ExecutionMode::Debug)
@@ -407,7 +415,9 @@ pub fn run() {
             continue;
         }
         match ws[0] {
+            "preds" => PREDS.with(|p| *p.borrow_mut() = true),
             "begin" => {
+                PREDS.with(|p| *p.borrow_mut() = false);
                 sc = Scenario::new();
                 println!("{}", line.trim());
             }
